@@ -211,11 +211,50 @@ impl Cluster {
         }
     }
 
+    /// Content-triggered slow-leader fault (see `MuteCfg`).
+    fn arm_mutes(&mut self, new_rounds: &[u64]) {
+        let mute = match &self.sc.mute {
+            Some(m) => m.clone(),
+            None => return,
+        };
+        for r in new_rounds {
+            let target = r + 1;
+            if !mute.rounds.contains(&target) {
+                continue;
+            }
+            let members = self.obs.lock().unwrap().members.clone();
+            let leader = members.leader_index(target);
+            if !self.sc.honest(leader) {
+                continue;
+            }
+            let mut dst: u64 = (0..self.sc.n).filter(|j| *j != leader).map(crate::net::bit).sum();
+            if crate::rng::unit(&[self.sc.seed, 300, target]) < mute.partial_prob {
+                let others: Vec<usize> = (0..self.sc.n).filter(|j| *j != leader).collect();
+                let spared = others[(mix(&[self.sc.seed, 301, target]) % others.len() as u64) as usize];
+                dst &= !crate::net::bit(spared);
+                self.obs.lock().unwrap().probe("fault.mute-partial");
+            }
+            let now = self.net.now_us();
+            self.net.add_rule(crate::net::Rule {
+                t0_us: now,
+                t1_us: now + mute.len_us,
+                src: crate::net::bit(leader),
+                dst,
+                bidir: false,
+                svc_mask: 1 << SVC_CONSENSUS,
+                kind: crate::net::RuleKind::Stall,
+                reply_only: false,
+                label: "slow-leader".into(),
+            });
+        }
+    }
+
     pub async fn run(mut self) -> RunReport {
         for (i, e) in self.sc.events.iter().enumerate() {
             self.net.schedule_custom(e.t_us, i as u64);
         }
         let end = self.sc.duration_us;
+        self.arm_mutes(&[0]);
         loop {
             let customs = self.net.pump(end).await;
             for c in customs {
@@ -227,7 +266,9 @@ impl Cluster {
                 for ev in &tap {
                     o.on_tap(ev);
                 }
+                let new_rounds = std::mem::take(&mut o.new_rounds);
                 drop(o);
+                self.arm_mutes(&new_rounds);
                 if let Some(a) = self.adversary.as_mut() {
                     for ev in &tap {
                         a.on_tap(ev);
